@@ -1097,3 +1097,7 @@ func specDateRoundTrips(ts []int, nsecs int) bool {
 	return ts[0] == date.Year() && time.Month(ts[1]) == date.Month() && ts[2] == date.Day() &&
 		ts[3] == date.Hour() && ts[4] == date.Minute() && ts[5] == date.Second()
 }
+
+// A symbol table's answer for an ID, as its (pure) observer reports it.
+func specFindByIDOK(t SymbolTable, id uint64) bool     { _, ok := t.FindByID(id); return ok }
+func specFindByIDText(t SymbolTable, id uint64) string { s, _ := t.FindByID(id); return s }
